@@ -12,7 +12,7 @@ import time
 
 from common import (HarnessError, Report, cargo_build, cargo_env, ensure_sut_link, run, seed, sim_dir, target_dir)
 
-OUT_RE = re.compile(r"^OUT ([0-9a-f]{16}) order=([0-9a-f]{16}) overlapping_pairs=(\d+) threads=(\d+) ops=(\d+)", re.M)
+OUT_RE = re.compile(r"OUT ([0-9a-f]{16}) order=([0-9a-f]{16}) overlapping_pairs=(\d+) threads=(\d+) ops=(\d+);")
 
 
 def build_obligations():
@@ -110,6 +110,11 @@ def check_scenario(native, features, scen_args, seeds, rate):
             raise HarnessError("cargo miri failed without a verdict about the program:\n%s" % out2[-3000:])
         rc, out = rc2, out2
     outs = OUT_RE.findall(out)
+    if rc == 0 and len(outs) != seeds[1] - seeds[0]:
+        # all seeds passed but a result line is missing or torn (many seeds share one pipe):
+        # the run is deterministic, so take it again before calling it harness trouble
+        rc, out = miri_run(features, scen_args, seeds, rate)
+        outs = OUT_RE.findall(out)
     stats = {"execs": len(outs), "orders": {o[1] for o in outs}, "overlap": sum(1 for o in outs if int(o[2]) > 0)}
     bad = [o for o in outs if o[0] != expected]
     if rc != 0:
